@@ -496,7 +496,6 @@ def C_axis_diag(repo, clause):
                         if isinstance(s, ast.If) and "cell_is_orthorhombic" in ast.unparse(s.test) and isinstance(s.test, ast.UnaryOp):
                             inner = [x for x in s.body if isinstance(x, ast.If) and any(isinstance(r, ast.Raise) for r in x.body)]
                             if inner:
-                                from .common import eq_const
                                 found = set()
                                 for cmp_ in ast.walk(inner[0].test):
                                     e = eq_const(cmp_) if isinstance(cmp_, ast.Compare) else None
@@ -716,7 +715,7 @@ def C_axis_replicate(repo, clause):
            and call_name(n.value.slice) == "any"]
     ok = False
     if len(flt) == 1:
-        from .common import eq_const
+
         c = flt[0].value.slice
         e = eq_const(c.args[0]) if c.args and isinstance(c.args[0], ast.Compare) else None
         ax = kwarg(c, "axis")
